@@ -7,6 +7,7 @@ CONSTANTS
   MaxLocal = 2
   AllowSelfStop = TRUE
   AllowManual = TRUE
+  AllowVariants = FALSE
   ExactOffers = FALSE
   EmitScripts = FALSE
 CONSTRAINT Bound
